@@ -297,7 +297,15 @@ func (e *Env) ghostVal(gv *GhostVar) Val {
 	if proto.gk == "" {
 		srt = e.g.sortOf(proto.ty)
 	}
-	e.g.regKey(key, srt, "ghost")
+	if _, known := e.g.keys[key]; !known {
+		e.g.regKey(key, srt, "ghost")
+		if strings.HasPrefix(srt, "|Seq!") {
+			// every version of a ghost sequence has a non-negative length (heapBound)
+			ki := e.g.keys[key]
+			ki.ref = "seq"
+			e.g.keys[key] = ki
+		}
+	}
 	proto.t = e.g.get(e.state, key)
 	return proto
 }
